@@ -501,3 +501,111 @@ where
     let r = out.lock().unwrap().take();
     r.unwrap_or_else(|| Err("the thread-exit body did not run".to_string()))
 }
+
+// ---- clone probe for iterator types -----------------------------------------------------------------
+// (same autoref dispatch as BackProbe: none of the crate's iterators is Clone on the pinned tree)
+
+pub struct CloneProbe<'a, I>(pub &'a I);
+
+pub trait CloneYes {
+    type It;
+    fn try_clone(&self) -> Option<Self::It>;
+}
+impl<'a, I: Clone> CloneYes for CloneProbe<'a, I> {
+    type It = I;
+    fn try_clone(&self) -> Option<I> {
+        Some(self.0.clone())
+    }
+}
+pub trait CloneNo {
+    type It;
+    fn try_clone(&self) -> Option<Self::It>;
+}
+impl<'a, 'b, I> CloneNo for &'b CloneProbe<'a, I> {
+    type It = I;
+    fn try_clone(&self) -> Option<I> {
+        None
+    }
+}
+
+/// `clone_modes!(what_closure, make_closure, key_closure)` -> Result<u64, String>: if the iterator
+/// type is Clone, a copy taken after j `next()` calls and the original must both yield the rest.
+#[macro_export]
+macro_rules! clone_modes {
+    ($what:expr, $make:expr, $key:expr) => {{
+        #[allow(unused_imports)]
+        use $crate::props::common::{CloneNo, CloneProbe, CloneYes};
+        let mut res: Result<u64, String> = Ok(0);
+        let want: Vec<_> = ($make)().map($key).collect();
+        let mut n = 0u64;
+        for j in 0..=want.len().min(6) {
+            let mut it = ($make)();
+            for _ in 0..j {
+                it.next();
+            }
+            let copy = {
+                let p = CloneProbe(&it);
+                (&p).try_clone()
+            };
+            match copy {
+                None => break,
+                Some(c) => {
+                    let from_copy: Vec<_> = c.map($key).collect();
+                    let from_orig: Vec<_> = it.map($key).collect();
+                    n += 1;
+                    if from_copy[..] != want[j..] || from_orig[..] != want[j..] {
+                        res = Err(format!(
+                            "{}: a clone taken after {} next() calls yields {:?} (the original then {:?}); a next() loop yields {:?}",
+                            ($what)(),
+                            j,
+                            from_copy,
+                            from_orig,
+                            &want[j..]
+                        ));
+                        break;
+                    }
+                }
+            }
+        }
+        if res.is_ok() {
+            res = Ok(n);
+        }
+        res
+    }};
+}
+
+#[cfg(test)]
+mod clone_probe_tests {
+    #[test]
+    fn clone_probe_dispatch() {
+        let v = vec![1, 2, 3];
+        let r = crate::clone_modes!(|| "vec".to_string(), || v.iter().copied(), |x: i32| x);
+        assert!(matches!(r, Ok(n) if n > 0), "{:?}", r);
+        struct NotClone(std::vec::IntoIter<i32>);
+        impl Iterator for NotClone {
+            type Item = i32;
+            fn next(&mut self) -> Option<i32> {
+                self.0.next()
+            }
+        }
+        let r = crate::clone_modes!(|| "nc".to_string(), || NotClone(vec![1, 2].into_iter()), |x: i32| x);
+        assert_eq!(r, Ok(0));
+        // a clone that drifts
+        struct Drift(Vec<i32>, usize);
+        impl Iterator for Drift {
+            type Item = i32;
+            fn next(&mut self) -> Option<i32> {
+                let r = self.0.get(self.1).copied();
+                self.1 += 1;
+                r
+            }
+        }
+        impl Clone for Drift {
+            fn clone(&self) -> Drift {
+                Drift(self.0.clone(), 0)
+            }
+        }
+        let r = crate::clone_modes!(|| "drift".to_string(), || Drift(vec![1, 2, 3], 0), |x: i32| x);
+        assert!(r.is_err(), "{:?}", r);
+    }
+}
